@@ -135,6 +135,11 @@ type Engine struct {
 	exe *mod.DefExecutor
 	par *mod.DefParser
 
+	// memFault: one database-level failure inside a batch insert (the batch is then partially applied)
+	memFaultNth  int // fail the n-th insert into task_instance (0 = none)
+	memFaultSeen int
+	memFaultIdx  int // index inside the batch where it hit (-1 = not yet)
+
 	hung        bool
 	foreignDiff string
 	panicked    []string
@@ -453,14 +458,27 @@ func (j *jstore) CreateDagIns(d *entity.DagInstance) error {
 
 func (j *jstore) BatchCreatTaskIns(ts []*entity.TaskInstance) error {
 	nm := j.e.nm
+	e := j.e
+	failAt := -1
 	return j.callOp(fmt.Sprintf("BatchCreatTaskIns:%d", len(ts)), func() Sx {
 		enc := sxList{}
 		for _, t := range ts {
 			enc = append(enc, taskSxR(t, nm))
 		}
+		if failAt >= 0 {
+			return L(I(3), enc, L(I(failAt)))
+		}
 		return L(I(3), enc, L())
 	}, true, func() (Sx, error) {
+		e.mu.Lock()
+		before := e.memFaultSeen
+		e.mu.Unlock()
 		err := j.real.BatchCreatTaskIns(ts)
+		e.mu.Lock()
+		if err != nil && e.memFaultNth > 0 && before < e.memFaultNth && e.memFaultSeen >= e.memFaultNth {
+			failAt = e.memFaultNth - 1 - before
+		}
+		e.mu.Unlock()
 		return errReplySx(err), err
 	})
 }
